@@ -462,6 +462,9 @@ func (f *specFont) parsePrivate(d []byte) error {
 		if t.kind == "name" && t.text == "closefile" {
 			break
 		}
+		if t.kind == "name" && t.text == "end" && inChars {
+			break
+		}
 		if t.kind == "name" && t.text == "dup" && !inChars {
 			// Subrs entry: dup i len RD bytes NP
 			save := l.pos
